@@ -18,3 +18,9 @@ prop("C18", level="proof", runtime=True,
                   "A1: velocity formula treated as an arbitrary real; clamp comparisons are exact",
                   "lb <= ub for every parameter"],
      not_decided=["update_global_best (bounded leader set) depends on the crowding_distance / sorting contracts: see evidence"])
+prop("C19", level="proof", runtime=True,
+     assumptions=["A2: the objective and the predict hook are arbitrary user code that returns a fresh list (or None) and does not "
+                  "touch the surrogate's counters or data; the ghost call log is part of that assumed contract",
+                  "train() of the scikit/SMT subclasses is assumed to set `trained` and leave counters and data alone",
+                  "problem.surrogate is the surrogate itself (true at every construction site); train_step != 0"],
+     not_decided=[])
